@@ -10,9 +10,35 @@
       std[j] is scaled according to the mean of j's own history (gibbs.py:191-216).
     The arithmetic of the proposal, of the decision and of the adaptation are parameters ([propose], [decide],
     [adapt]); what is modelled is WHICH entries each of them is given. *)
-From Coq Require Import List Bool Arith PeanoNat.
+From Coq Require Import List Bool Arith PeanoNat String.
 From Leaspy Require Import Locality.AxisTypes.
 Import ListNotations.
+
+(** The header above, as data (compared with the source on every run: Locality/SamplerReadsTie.v proves these equal to
+    what harness/translate/c07_sample_reads.py regenerates from gibbs.py / base.py with python `ast`):
+    every use of `state` in [IndividualGibbsSampler.sample], in source order — (node, how it is read); `<self.name>` is the
+    name of the sampled variable; the tag `if-ndim>1` marks the reads of the mixture branch. *)
+Definition sample_reads : list (string * string) :=
+  [("nll_attach_ind", "values"); ("nll_regul_<self.name>_ind", "values");
+   ("nll_regul_ind_sum_ind", "ndim"); ("nll_regul_ind_sum_ind", "value:if-ndim>1")]%string.
+(** ... and the only two writes: the proposal on the sampled variable, the partial revert *)
+Definition sample_writes : list string := ["put:self.name"; "revert:~accepted"]%string.
+(** samplers/base.py:113-115 — one uniform per entry of alpha, compared entry by entry (no reduction over individuals) *)
+Definition group_decision : string := "torch.rand(alpha.shape) < alpha"%string.
+(** gibbs.py:204-216 — the acceptance mean is over the HISTORY axis only (dim=0): one value per individual *)
+Definition std_update : list string :=
+  ["mean_acceptation = self.acceptation_history.mean(dim=0)";
+   "idx_toolow = mean_acceptation < self._mean_acceptation_lower_bound_before_adaptation";
+   "idx_toohigh = mean_acceptation > self._mean_acceptation_upper_bound_before_adaptation";
+   "self.std[idx_toolow] *= 1 - self._adaptive_std_factor";
+   "self.std[idx_toohigh] *= 1 + self._adaptive_std_factor"]%string.
+(** base.py:157-160 — the window drops its oldest row and receives the new decisions as one row *)
+Definition acceptation_update : list string :=
+  ["old_acceptation_history = self.acceptation_history[1:]";
+   "self.acceptation_history = torch.cat([old_acceptation_history, accepted.unsqueeze(0)])"]%string.
+(** gibbs.py:655-658 / 101-103 — std and acceptance have one entry per individual *)
+Definition shape_adapted_std : string := "(self.n_patients,)"%string.
+Definition shape_acceptation : string := "self.shape_adapted_std"%string.
 
 Section Sampler.
   Variable A : Type.
